@@ -185,3 +185,60 @@ Definition serve_n (attempts limit delay upstream_status : Z) : Z * Z * Z :=
   if rht_expires limit delay
   then (error_status ENetTimeout, Z.max 1 attempts * limit, Z.max 1 attempts)
   else (upstream_status, delay, 1).
+
+(* ---- the whole exchange: request upload, response header, response body ----
+   net/http starts the response-header timer when the request has been written
+   (net/http/transport.go, persistConn.roundTrip: `case err := <-writeErrCh: ... if d :=
+   pc.t.ResponseHeaderTimeout; d > 0 { timer := time.NewTimer(d) ...`) and stops looking at it once
+   the header is there: neither the time the client needs to upload its request body nor the time
+   the upstream needs to deliver its response body is limited by it.  proxy/http_proxy.go hands
+   the client's request (with the client's own context, no deadline of the proxy's) to
+   httputil.ReverseProxy, which copies the body until the upstream ends it.
+
+   An upstream exchange: the client's request body takes [x_upload] to arrive at the upstream;
+   the upstream answers its header [x_delay] after it has the request and then delivers its body
+   in chunks, each [gap] after the previous event.  Times are measured from the moment the client
+   starts its request. *)
+Record exchange := { x_upload : Z; x_delay : Z; x_status : Z; x_chunks : list (Z * str) }.
+(* what the client gets: status, when, the body bytes it received, whether the body ended the way
+   the upstream ended it (false = cut off: connection aborted / unexpected EOF), when the exchange
+   was over, whether the upstream received the whole request, how often the upstream was asked *)
+Record answer := { a_status : Z; a_head_at : Z; a_body : str; a_complete : bool; a_done_at : Z;
+                   a_request_whole : bool; a_hits : Z }.
+
+(* A limit [whole] on the exchange as a whole (a deadline on the request's context) would apply to
+   every phase.  The proxy sets none ([whole_deadline_of_proxy]); the generalisation is what the
+   served-normally theorem is refuted for when such a deadline is put around the exchange. *)
+Definition past (whole : option Z) (t : Z) : bool := match whole with Some d => d <=? t | None => false end.
+Definition whole_deadline_of_proxy : option Z := None.
+
+(* the body from time [now] on: (bytes received, ended properly, time of the end) *)
+Fixpoint deliver (whole : option Z) (now : Z) (chunks : list (Z * str)) : str * bool * Z :=
+  match chunks with
+  | [] => ([], true, now)
+  | (gap, b) :: r =>
+      if past whole (now + gap) then ([], false, match whole with Some d => d | None => now end)
+      else let '(bs, ok, e) := deliver whole (now + gap) r in (b ++ bs, ok, e)
+  end.
+
+Definition exchange_with (whole : option Z) (limit : Z) (x : exchange) : answer :=
+  let sent := x_upload x in
+  let head := sent + x_delay x in
+  let gave_up (t : Z) (req : bool) :=
+    {| a_status := error_status ENetTimeout; a_head_at := t; a_body := []; a_complete := true; a_done_at := t;
+       a_request_whole := req; a_hits := attempts_of_proxy |} in
+  match whole with
+  | Some d =>
+      if d <=? sent then gave_up d false
+      else if rht_expires limit (x_delay x) && (sent + limit <=? d) then gave_up (sent + limit) true
+      else if d <=? head then gave_up d true
+      else let '(b, ok, e) := deliver whole head (x_chunks x) in
+           {| a_status := x_status x; a_head_at := head; a_body := b; a_complete := ok; a_done_at := e;
+              a_request_whole := true; a_hits := attempts_of_proxy |}
+  | None =>
+      if rht_expires limit (x_delay x) then gave_up (sent + limit) true
+      else let '(b, ok, e) := deliver None head (x_chunks x) in
+           {| a_status := x_status x; a_head_at := head; a_body := b; a_complete := ok; a_done_at := e;
+              a_request_whole := true; a_hits := attempts_of_proxy |}
+  end.
+Definition exchange_of_proxy (limit : Z) (x : exchange) : answer := exchange_with whole_deadline_of_proxy limit x.
